@@ -32,7 +32,8 @@ def run_case(case):
             root_uri=tmp.as_uri()))
         version = [0]
         def uri(d):
-            return (tmp / d).as_uri()
+            # the CLIENT's spelling of the document URI (editors leave characters such as parentheses unescaped); for plain names it is pathlib's spelling
+            return tmp.as_uri() + '/' + d
         outs = []
         for e in case['events']:
             npub, nlog = len(published), len(logs)
